@@ -298,6 +298,7 @@ class Unmergeable(Exception):
 
 
 HEAP_STRICT = [False]
+SLICE_STRICT = [True]
 BIGW = 320
 
 
@@ -354,7 +355,13 @@ def merge_typed(c, a, b, t):
             if a.obj is None and is_zero_len(b):
                 pass
             raise Unmergeable()
-        return Slice(a.obj, a.path, merge_typed(c, a.off, b.off, 'int'), merge_typed(c, a.len, b.len, 'int'), merge_typed(c, a.cap, b.cap, 'int'))
+        # slice headers with different CONCRETE lengths are kept apart (same reason as HEAP_STRICT)
+        saved = HEAP_STRICT[0]
+        HEAP_STRICT[0] = SLICE_STRICT[0] or saved
+        try:
+            return Slice(a.obj, a.path, merge_typed(c, a.off, b.off, 'int'), merge_typed(c, a.len, b.len, 'int'), merge_typed(c, a.cap, b.cap, 'int'))
+        finally:
+            HEAP_STRICT[0] = saved
     if k == 'string':
         if a == b:
             return a
